@@ -279,13 +279,24 @@ Qed.
 Lemma exp_zero_leaves um u ws : Forall word ws -> allsem nn_words (exp_zero um u ws).
 Proof.
   intros Hw. unfold exp_zero. destruct ws as [|w ws]; sstep; [exact I|]. inversion Hw as [|? ? Hb Hws]; subst.
-  split; [|exact Hws]. cbn [fst]. intros x. cbn [eln evalX xbin xun]. rewrite dyx_eval, u_std_eval.
-  pose proof (uR_std_range F64 w Hb) as [U0 U1]. pose proof ZIG_EXP_R_nonneg as R0.
-  revert U0 U1 R0. generalize (uR_std F64 w) (dyR ZIG_EXP_R). intros uu r U0 U1 R0.
-  destruct (Rle_dec uu 0) as [Z|Z].
-  - rewrite Xln_nonpos by exact Z. discriminate.
-  - rewrite Xln_pos by lra. cbn [Xsub]. intros H. injection H as <-.
-    assert (ln uu < 0); [|lra]. rewrite <- ln_1. apply ln_increasing; lra.
+  split; [|exact Hws]. cbn [fst]. intros x.
+  destruct (u_open_range F64 w Hb) as (uu & EU & U0 & U1).
+  change (evalX (dyx ZIG_EXP_R -. eln (u_open F64 w))) with (Xsub (evalX (dyx ZIG_EXP_R)) (Xln (evalX (u_open F64 w)))).
+  rewrite dyx_eval, EU. pose proof ZIG_EXP_R_nonneg as R0.
+  rewrite Xln_pos by lra. cbn [Xsub]. intros H. injection H as <-.
+  assert (ln uu < 0); [|lra]. rewrite <- ln_1. apply ln_increasing; lra.
+Qed.
+
+(* the tail routine is defined for EVERY word: with the Open01 draw ln never sees 0 (repair of finding F5) *)
+Lemma exp_zero_defined um u w ws : word w ->
+  exists x, evals (exp_zero um u (w :: ws)) (dyx ZIG_EXP_R -. eln (u_open F64 w), ws) /\
+            evalX (dyx ZIG_EXP_R -. eln (u_open F64 w)) = Xreal x /\ dyR ZIG_EXP_R < x.
+Proof.
+  intros Hb. destruct (u_open_range F64 w Hb) as (uu & EU & U0 & U1).
+  exists (dyR ZIG_EXP_R - ln uu). split; [unfold exp_zero; cbn [sbind bind next_word sret]; constructor|].
+  change (evalX (dyx ZIG_EXP_R -. eln (u_open F64 w))) with (Xsub (evalX (dyx ZIG_EXP_R)) (Xln (evalX (u_open F64 w)))).
+  rewrite dyx_eval, EU, Xln_pos by lra. split; [reflexivity|].
+  assert (ln uu < 0); [|lra]. rewrite <- ln_1. apply ln_increasing; lra.
 Qed.
 
 Lemma exp1_leaves t ws : Forall word ws -> allsem nn_words (exp1 t ws).
